@@ -94,7 +94,12 @@ class TxGrammar:
         while s.peek()[0] != "eof":
             name = s.eat()
             if s.peek()[1] == "[":
-                while s.eat() != "]": pass
+                mods_ = []
+                while True:
+                    x_ = s.eat()
+                    if x_ == "]": break
+                    mods_.append(x_)
+                s.mods = getattr(s, "mods", {}); s.mods[name] = mods_
             s.eat(":"); s.rules[name] = s.choice(); s.eat(";"); s.order.append(name)
     def peek(s, k=0): return s.t[s.i + k] if s.i + k < len(s.t) else ("eof", "")
     def eat(s, v=None):
@@ -350,9 +355,10 @@ def build(root):
             _v = const_str(n.value.args[0], lang)
             if _v is None: raise AnalysisError("regex of base type %s is not a constant string expression" % n.targets[0].id)
             B.setdefault(n.targets[0].id, ("re", _v))
+    build.mods = dict(getattr(tx, "mods", {}))
     return {k: norm(v) for k, v in A.items()}, {k: norm(v) for k, v in B.items()}
 def r_C24(root):
-    A, B = build(root)
+    A, B = build(root); TXMODS = dict(build.mods)
     d = Differ(A, B, EQUIV); d.cmp(("ref", "textx_model"), ("ref", "TextxModel"), "", "", ""); d.cmp(("ref", "comment"), ("ref", "Comment"), "", "", "")
     out = []; seen = set()
     for ra, rb, where, kind, sa, sb in d.diffs:
@@ -427,7 +433,22 @@ def r_C24(root):
         return None
     class _NotExact(Exception):
         def __init__(s, msg, w): s.msg, s.w = msg, w
+    def _ws_junctions(t, rule_name, mods):
+        """parts of a token sequence before which the parser skips blanks although the part itself may begin with a blank:
+        written as ONE regex (the other grammar) the blank belongs to the token, here it is skipped"""
+        res = []
+        if t[0] != "seq" or "noskipws" in (mods or []): return res
+        for k, x in enumerate(t[1]):
+            if k > 0 and x[0] == "re":
+                try: a = _rx.Nfa(_split_lookahead(x[1])[0])
+                except _rx.Unsupported: continue
+                S0 = a.closure({a.start})
+                if any(a.step(S0, ch) for ch in " \t\n"): res.append((k, x[1]))
+        return res
     for (ra, rb) in sorted(EQUIV):
+        if rb in B and (A.get(ra) or ("x",))[0] == "re":
+            for k_, pat_ in _ws_junctions(B[rb], rb, TXMODS.get(rb)):
+                out.append(Finding("C24", "C24.a", "textx/textx.tx", "%s ~ %s" % (ra, rb), "blanks before part %d (/%s/) of the token" % (k_ + 1, pat_[:40]), "the grammar compiler reads this token with ONE regex, so a blank after the opening delimiter is part of the token; the self-hosted grammar reads it as a sequence of terminals and skips blanks before /%s/, which may itself begin with a blank: the two read different tokens (R: / x/; is the regex ' x' for the compiler and 'x' in the inspected model) and disagree on acceptance when the skipped blank decides where the token ends" % pat_[:40], witness="R: / //x/ 'a';"))
         try: pa, pb = (_flat_re(A[ra]) if ra in A else None), (_flat_re(B[rb]) if rb in B else None)
         except _NotExact as e:
             d.paired.add((ra, rb, "language"))
